@@ -552,20 +552,20 @@ def run(rep, tier, rng):
         take(obj, "corpus", blank=bool(ent.get("blank")))
     # every concrete class: blank instance, presence variants
     budget = 32 if thorough else 8
-    rounds = 3 if thorough else 1
+    rounds = 5 if thorough else 1
     for cls in ctx.concrete:
         take(cls, "blank", blank=True)
         for _ in range(rounds):
             for obj in presence_variants(ctx, cls, rng, budget):
                 take(obj, "presence-variant")
     # message sets and whole OFX trees: wrappers of every kind, with and without (closing) statements, in random order
-    n_ms = 40 if thorough else 8
+    n_ms = 80 if thorough else 8
     for cn in STMT_MSGSET_CLASSES + ["SECLISTMSGSRSV1"]:
         for k in range(n_ms):
             obj = gen_msgset(ctx, ctx.byname[cn], rng, k % 6)
             if obj is not None:
                 take(obj, "message-set")
-    for k in range(120 if thorough else 24):
+    for k in range(300 if thorough else 24):
         obj = gen_ofx(ctx, rng, "RQ" if k % 2 else "RS")
         if obj is not None:
             take(obj, "ofx-tree")
